@@ -5,7 +5,7 @@ import math
 from common import Rng, F
 
 PROP = 'C20'
-MODEL_OPS = 'SrcAscii.from_ascii_m'
+MODEL_OPS = 'SrcAscii.from_ascii_m; Fmt.fmt_e / fmt_f (the "%11.3e" and "%9.5f" fields of to_ascii)'
 RULE = ('token lists: (a) valid lines for n=0..12 — all flag vectors over {0,1,2,3,4,9} for n<=3 (exhaustive), sampled above; '
         '(b) for every n in 0..12 every column count 0..3n+6 (truncation / extension of a valid line); (c) one flag replaced by an '
         'out-of-range or non-integer token; (d) one non-numeric value; (e) to_ascii->from_ascii, dict and pickle round trips. '
@@ -76,11 +76,17 @@ def generate(tier, seed):
         cols[j] = rng.choice(['abc', '--', '1,5', 'e5'])
         cases.append(dict(kind='badnum', cols=cols))
     # (e) round trips of Source objects
-    for _ in range(100 if tier == 'quick' else 2000):
+    def tie():
+        j = rng.randint(0, 9)
+        m = rng.choice([1000, 1001, 1002, 4999, 5000, 9998, 9999, rng.randint(1000, 9999)])
+        v = (m * 10 ** j + 5 * 10 ** (j - 1)) if j > 0 else m + 0.5          # exactly representable: a tie of "%.3e"
+        return float(v) * rng.choice([1.0, 1.0, -1.0])
+    for k in range(100 if tier == 'quick' else 2000):
         n = rng.randint(0, 12)
         flags = [rng.choice(FLAGS) for _ in range(n)]
+        num = (lambda: float(_num(rng))) if k % 5 else (lambda: rng.choice([tie(), tie(), 0.0, 9.9995, 9.99949999, 1e-300, 1.7976931348623157e308, 5e-324]))
         cases.append(dict(kind='roundtrip', name=_name(rng), x=rng.uniform(0, 360), y=rng.uniform(-90, 90), flags=flags,
-                          flux=[float(_num(rng)) for _ in flags], error=[float(_num(rng)) for _ in flags]))
+                          flux=[num() for _ in flags], error=[num() for _ in flags]))
     return cases
 
 
@@ -134,7 +140,8 @@ def _tok(i, t):
 
 def model_requests(case):
     if case['kind'] == 'roundtrip':
-        return []
+        return [('fmt_f', [5, F(case['x'])]), ('fmt_f', [5, F(case['y'])])] + \
+               [('fmt_e', [3, F(v)]) for pair in zip(case['flux'], case['error']) for v in pair]
     return [('from_ascii', [[_tok(i, t) for i, t in enumerate(case['cols'])]])]
 
 
@@ -178,9 +185,29 @@ def judge(case, im, mo):
         if abs(b['x'] - o['x']) > 5.1e-6 or abs(b['y'] - o['y']) > 5.1e-6:
             fail.append('format: coordinates not preserved to the printed precision')
         for f in ('flux', 'error'):
-            if len(b[f]) != len(o[f]) or any(abs(p - q) > 5.1e-4 * abs(q) for p, q in zip(b[f], o[f])):
+            # the property's quantifier spans 60 decades; beyond it only the printed text is compared with the model (1.798e+308 does not parse back)
+            if len(b[f]) != len(o[f]) or any(abs(p - q) > 5.1e-4 * abs(q) for p, q in zip(b[f], o[f]) if q == 0 or 1e-30 <= abs(q) <= 1e30):
                 fail.append('format: %s not preserved to the printed precision' % f)
-        return dict(fail=fail, disagree=[], nontrivial=len(o['valid']) > 0, tags=['kind=roundtrip', 'n=%d' % len(o['valid'])])
+        # every printed field against the model's correctly rounded decimal
+        toks = im['line'].split()
+        n = len(o['valid'])
+        vals = [v for pair in zip(case['flux'], case['error']) for v in pair]
+        if any(isinstance(m, tuple) for m in mo):
+            disagree.append('driver: %r' % ([m for m in mo if isinstance(m, tuple)][:1],))
+        elif len(toks) != 3 + 3 * n:
+            fail.append('format: to_ascii writes %d columns for n = %d' % (len(toks), n))
+        else:
+            for t, v, m in zip(toks[1:3], (case['x'], case['y']), mo[:2]):
+                digits = t.lstrip('-').replace('.', '')
+                if '.' not in t or len(t.split('.')[1]) != 5 or int(digits) != m or (t.startswith('-') != (v < 0 and m != 0) and m != 0):
+                    disagree.append('coordinate %r printed as %s; model %d x 1e-5' % (v, t, m))
+            for t, v, m in zip(toks[3 + n:], vals, mo[2:]):
+                mant, _, ex = t.lower().partition('e')
+                want = (0, 0) if m == [] else (m[0][0], m[0][1])
+                got = (int(mant.lstrip('-').replace('.', '')), int(ex) if int(mant.lstrip('-').replace('.', '')) else 0)
+                if got != want or (t.startswith('-') != (v < 0)) or len(mant.lstrip('-')) != 5:
+                    disagree.append('value %r printed as %s; model mantissa %d exponent %d' % (v, t, want[0], want[1]))
+        return dict(fail=fail, disagree=disagree[:3], nontrivial=len(o['valid']) > 0, tags=['kind=roundtrip', 'n=%d' % len(o['valid'])])
     cols = case['cols']
     m = mo[0]
     if isinstance(m, tuple):
